@@ -14,7 +14,8 @@ package main
 //                selector replaced by ENC) compared with the modelled text below.
 //   List handler the operator of the comparison returned by the sort.Search predicate and whether a
 //                `nextIndex++` step follows; the order decodePageToken < validatePageSize <
-//                capPageSize; whether the listing call carries resource.WithReadMask; the operator of
+//                capPageSize; whether the listing call carries resource.WithReadMask; whether the listing
+//                is re-sorted (sort.Slice) by the field the search compares, before the search; the operator of
 //                `upperBound <op> len(items)`; whether TotalSize is int32(len(items)); and the whole
 //                body, printed and normalised (listing variable -> L, key field -> K, receiver -> R,
 //                traits.<T> -> traits.T, model listing method -> LIST, response items field -> ITEMS),
@@ -192,9 +193,9 @@ func readPagesGo(pkg string) (pagesRow, error) {
 }
 
 type handlerRow struct {
-	src                                           handlerSrc
-	variant                                       string
-	validates, maskBefore, ubStrict, total, shape bool
+	src                                                   handlerSrc
+	variant                                               string
+	validates, maskBefore, resort, ubStrict, total, shape bool
 }
 
 func callName(e ast.Expr) string {
@@ -234,11 +235,20 @@ func readHandler(h handlerSrc) (handlerRow, error) {
 	searchOp, keyField := "", ""
 	hasSkip := false
 	ubOp := ""
+	sortVar, sortField := "", "" // sort.Slice(V, func(i, j int) bool { return V[i].F < V[j].F })
 	ast.Inspect(fd.Body, func(n ast.Node) bool {
 		switch x := n.(type) {
 		case *ast.AssignStmt:
 			if len(x.Lhs) == 1 && len(x.Rhs) == 1 && listVar == "" {
 				if c, ok := x.Rhs[0].(*ast.CallExpr); ok {
+					// slices.Clone(<listing call>): a copy of the slice with the same elements (electricpb, so that
+					// the sort and the in-place read-mask loop never touch a slice the model may hand out again;
+					// C07's write-site policy) - invisible to the model of the pager, kept in the compared text
+					if callName(c) == "slices.Clone" && len(c.Args) == 1 {
+						if in, ok := c.Args[0].(*ast.CallExpr); ok {
+							c = in
+						}
+					}
 					if sel, ok := c.Fun.(*ast.SelectorExpr); ok {
 						if in, ok := sel.X.(*ast.SelectorExpr); ok && in.Sel.Name == "model" {
 							if id, ok := x.Lhs[0].(*ast.Ident); ok {
@@ -255,8 +265,19 @@ func readHandler(h handlerSrc) (handlerRow, error) {
 			}
 		case *ast.CallExpr:
 			switch nm := callName(x); nm {
-			case "decodePageToken", "validatePageSize", "capPageSize", "sort.Search", "encodePageToken":
+			case "decodePageToken", "validatePageSize", "capPageSize", "sort.Search", "encodePageToken", "sort.Slice":
 				order = append(order, nm)
+				if nm == "sort.Slice" && len(x.Args) == 2 && sortVar == "" {
+					if v, ok := x.Args[0].(*ast.Ident); ok {
+						if fl, ok := x.Args[1].(*ast.FuncLit); ok && len(fl.Body.List) == 1 {
+							q := regexp.QuoteMeta(v.Name)
+							want := regexp.MustCompile(`^return ` + q + `\[i\]\.(\w+) < ` + q + `\[j\]\.(\w+)$`)
+							if m := want.FindStringSubmatch(printNode(fset, fl.Body.List[0])); m != nil && m[1] == m[2] {
+								sortVar, sortField = v.Name, m[1]
+							}
+						}
+					}
+				}
 				if nm == "sort.Search" && len(x.Args) == 2 {
 					if fl, ok := x.Args[1].(*ast.FuncLit); ok && len(fl.Body.List) == 1 {
 						if rs, ok := fl.Body.List[0].(*ast.ReturnStmt); ok && len(rs.Results) == 1 {
@@ -304,6 +325,8 @@ func readHandler(h handlerSrc) (handlerRow, error) {
 	}
 	row.validates = idx("decodePageToken") >= 0 && idx("decodePageToken") < idx("validatePageSize") && idx("validatePageSize") < idx("capPageSize")
 	row.ubStrict = ubOp == ">"
+	// re-sorted by the very field the search compares, after the listing was read and before the search
+	row.resort = sortVar != "" && sortVar == listVar && sortField == keyField && idx("sort.Slice") >= 0 && idx("sort.Slice") < idx("sort.Search")
 	// normalised body
 	body := printNode(fset, fd.Body)
 	if listVar != "" {
@@ -383,8 +406,8 @@ func genPagers(outDir string) error {
 		if err != nil {
 			return err
 		}
-		hrow = append(hrow, fmt.Sprintf("  {| h_server := %s; h_pkg := %s; h_variant := %s; h_validates := %s; h_mask_before := %s; h_ub_strict := %s; h_total_full := %s; h_shape := %s |}",
-			h.server, vcoq.Str(h.pkg), r.variant, vcoq.Bool(r.validates), vcoq.Bool(r.maskBefore), vcoq.Bool(r.ubStrict), vcoq.Bool(r.total), vcoq.Bool(r.shape)))
+		hrow = append(hrow, fmt.Sprintf("  {| h_server := %s; h_pkg := %s; h_variant := %s; h_validates := %s; h_mask_before := %s; h_resort := %s; h_ub_strict := %s; h_total_full := %s; h_shape := %s |}",
+			h.server, vcoq.Str(h.pkg), r.variant, vcoq.Bool(r.validates), vcoq.Bool(r.maskBefore), vcoq.Bool(r.resort), vcoq.Bool(r.ubStrict), vcoq.Bool(r.total), vcoq.Bool(r.shape)))
 	}
 	b.WriteString("Definition handler_table : list handler_row := [\n" + strings.Join(hrow, ";\n") + "\n].\n\n")
 	hok, mok, err := readWaste()
